@@ -47,7 +47,7 @@ func (c *treeCase) kase() *kase {
 func genTreeCase(maxDepth, maxTerms int) *treeCase {
 	nt := 1 + rng.Intn(maxTerms)
 	terms := distinctTerms(nt)
-	t := genTree(rng.Intn(maxDepth+1), nt)
+	t := genTreeBounded(rng.Intn(maxDepth+1), nt, 60000)
 	c := &treeCase{t: t, terms: terms}
 	c.text = t.render(texts(terms), "", false, rng.Intn(3), rng.Intn(4) != 0)
 	c.allowed = genAllowed(terms)
@@ -219,6 +219,7 @@ func runTreeProperty(check func(k *kase, withCorr bool) *failure, nRandom int, m
 
 func init() {
 	props["C01"] = func() {
+		decisive['S'] = "Satisfies differs from the boolean reading of the expression (model `satisfies`, proved equal to it: C01.satisfies_spec, verdict_eq_eval)"
 		res.Rule = "random trees (depth<=5/7, 1-6 distinct valid terms of every kind, random parenthesisation and spacing) x allowed lists built from the terms, related spellings/versions and unrelated entries; plus systematic shapes and all shapes up to 4/5 leaves x every non-empty subset of the terms. Non-trivial & distinct = (tree shape, leaf truth vector) of a non-leaf tree"
 		runTreeProperty(c01Check, scale(12000, 300000), scale(5, 7), scale(4, 5))
 	}
@@ -380,6 +381,7 @@ func c06Check(k *kase, withCorr bool) *failure {
 
 func init() {
 	props["C06"] = func() {
+		decisive['E'] = "ExtractLicenses differs from the set of distinct canonical terms (model `extract`, proved to be exactly that set: C06.extract_mem, extract_nodup)"
 		res.Rule = "the C01 tree generator (all shapes incl. refs under OR, repeated and re-spelled terms). Non-trivial & distinct = (tree shape, set of canonical terms) of a non-leaf tree"
 		// add re-spelled duplicates: handled by the term generator's case mutation + explicit pairs below
 		runTreeProperty(c06Check, scale(8000, 150000), scale(5, 7), scale(4, 5))
@@ -493,6 +495,12 @@ func c07Check(k *kase, withCorr bool) *failure {
 		}
 		return nil
 	}
+	if k.Extra != nil && k.Extra["extension"] != "" {
+		ext := unhxl(k.Extra["extension"])
+		if r := implSat(k.Expr, ext); base.ok && (r.panicv != nil || r.err != nil || !r.ok) {
+			return &failure{Stream: "oracle", What: "adding valid entries turned 'satisfied' into " + r.String() + "; extended list " + joinShow(ext), Case: k, Impl: r.String(), Expected: "true"}
+		}
+	}
 	var replayVariant []string
 	if k.Extra != nil && k.Extra["variant_list"] != "" {
 		replayVariant = unhxl(k.Extra["variant_list"])
@@ -563,6 +571,99 @@ func c07Check(k *kase, withCorr bool) *failure {
 	return nil
 }
 
+// c07Lattice: monotonicity over the whole subset lattice of a small pool of entries, for two-alternative expressions in
+// which ONE id occurs twice with different decoration (bare, '+', WITH an exception) beside unrelated terms sorting before
+// and after it: whenever a subset satisfies the expression, every superset must (anything remembered about an id while an
+// earlier alternative was tried must not leak into a later one)
+func c07Lattice() {
+	decor := func(id string, d int, exc string) string {
+		switch d {
+		case 1:
+			return id + "+"
+		case 2:
+			return id + " WITH " + exc
+		case 3:
+			return id + "+ WITH " + exc
+		}
+		return id
+	}
+	ids := append([]string{}, tblActive...)
+	rng.Shuffle(len(ids), func(i, j int) { ids[i], ids[j] = ids[j], ids[i] })
+	nIDs := scale(24, 200)
+	done := 0
+	for _, id := range ids {
+		if done >= nIDs || timeUp("c07Lattice") {
+			break
+		}
+		if !implValid(id+"+") || strings.HasSuffix(id, "-only") || strings.HasSuffix(id, "-or-later") {
+			continue
+		}
+		done++
+		exc := pick(tblExceptions)
+		for d1 := 0; d1 < 4; d1++ {
+			for d2 := 0; d2 < 4; d2++ {
+				if d1 == d2 {
+					continue
+				}
+				for _, others := range [][2]string{{"0BSD", "Zlib"}, {"Zlib", "0BSD"}, {"0BSD", "AAL"}, {"Zlib", "xpp"}} {
+					u, z := others[0], others[1]
+					if u == id || z == id {
+						continue
+					}
+					x1, x2 := decor(id, d1, exc), decor(id, d2, exc)
+					exprs := []string{
+						"(" + u + " AND " + x1 + ") OR (" + x2 + " AND " + z + ")",
+						"(" + x1 + " AND " + u + ") OR (" + z + " AND " + x2 + ")",
+						u + " AND " + x1 + " OR " + x2 + " AND " + z + " OR " + x1 + " AND " + z,
+					}
+					pool := []string{x1, x2, u, z}
+					if fam := sameFamilyIDs(id); len(fam) > 0 {
+						pool = append(pool, pick(fam))
+					}
+					for _, e := range exprs {
+						verdict := make([]string, 1<<len(pool))
+						for mask := 1; mask < 1<<len(pool); mask++ {
+							var l []string
+							for i := range pool {
+								if mask&(1<<i) != 0 {
+									l = append(l, pool[i])
+								}
+							}
+							verdict[mask] = implSat(e, l).String()
+							res.Evaluations++
+							count("lattice_lists")
+						}
+						for mask := 1; mask < 1<<len(pool); mask++ {
+							if verdict[mask] != "true" {
+								continue
+							}
+							nontrivial("lattice|" + e + "|" + itoa(mask))
+							for i := range pool {
+								sup := mask | 1<<i
+								if sup != mask && verdict[sup] != "true" {
+									var l, l2 []string
+									for j := range pool {
+										if mask&(1<<j) != 0 {
+											l = append(l, pool[j])
+										}
+										if sup&(1<<j) != 0 {
+											l2 = append(l2, pool[j])
+										}
+									}
+									fail(failure{Stream: "oracle", What: "adding the valid entry " + show(pool[i]) + " turned 'satisfied' into " + verdict[sup] + "; extended list " + joinShow(l2),
+										Case: &kase{Expr: e, ExprHex: hx(e), Allowed: l, Extra: map[string]string{"extension": hxl(l2)}}, Impl: verdict[sup], Expected: "true"})
+									mask = 1 << len(pool)
+									break
+								}
+							}
+						}
+					}
+				}
+			}
+		}
+	}
+}
+
 func allPermutations(xs []string) [][]string {
 	if len(xs) <= 1 {
 		return [][]string{append([]string{}, xs...)}
@@ -580,6 +681,7 @@ func allPermutations(xs []string) [][]string {
 func init() {
 	props["C07"] = func() {
 		res.Rule = "random (expression, allowed list) pairs from the C01 generator; for each: a random permutation, the reversal, a duplication, a full duplication, a re-spelling (case of listed ids, surrounding spaces/parentheses) and a random valid extension; thorough adds every permutation of lists up to 5 entries. Non-trivial & distinct = (expression, allowed set) with >= 2 entries or a non-leaf expression"
+		c07Lattice()
 		n := scale(5000, 60000)
 		for i := 0; i < n && !timeUp("props_tree.go:542"); i++ {
 			c := genTreeCase(scale(4, 6), 5)
